@@ -22,6 +22,8 @@ CHECKS = {
          "The chained hash is checked metamorphically (function of content), never re-implemented. 'Different rows or deletion records => different logs' is evaluated on rows and deletion records (references are not part of the log by design)."),
  "C11": ("repl", "exploration", "After every step, on every node, no row or reference is stored at the deleted or an older version while that node holds its deletion record; after heal the row is absent and the record present everywhere.",
          "Rows updated elsewhere to a version newer than the deleted one are outside the statement. Multi-entity rooms inherit the open summary-blindness finding of C03."),
+ "C14": ("chaos", "exploration", "Hostile inputs as injected faults on a live node: per run a data model over awkward identifiers (storage-engine and language keywords, digits first, '_', Unicode) with every field type and hostile defaults, then requests generated from the grammar over it (creations, updates, deletions, queries with every parameter form), every parameter kind against every field type, character-level mutations of requests and model text, hostile answers of every kind while the node pulls (garbage, truncated, huge length, other kind, rows / references / deletion records with broken keys, signatures, entities, dates, and validly signed rows with extreme dates and JSON), hostile requests on its serving side, local use of whatever was received, restarts; after EVERY input: no panic in the process, every service thread alive, no hang, and a probe mutation, probe query and four signature verifications answered normally; a request the parser accepts is never rejected by the storage engine.",
+         "'Rejected by the database engine' = the storage-engine variant of the database error. QUIC frame parsing is below the simulated transport (hostile bytes enter as message payloads); invitation bytes are exercised in the C19 engine. Ten genuine defects found and repaired (see known_findings.json)."),
  "C15": ("model", "exploration", "Two nodes holding data; sequences of data-model versions built from valid and invalid edits (also a version valid for one entity and invalid for another) applied at run time or at restart, with restarts on the same model in between: accepted versions keep every row readable with the same values under the same names, identifiers never change or collide and both nodes agree on them; refused versions change nothing (running model, stored model, rows, next requests).",
          "The verdict of a run-time update is read from the request itself (GraphDatabaseService::update_data_model drops it). Hash-map seeds differ per run and per map."),
  "C16": ("phase", "exploration", "2-3 mutations of one row in flight together on a live node (concurrent callers or the mutation stream); the simulator decides with the batch gate whether each later mutation is read before or after the earlier ones are written; the final row must equal the acknowledged mutations applied serially in some order.",
